@@ -4,8 +4,10 @@
 package gr
 
 import (
+	"encoding/json"
 	"fmt"
 	"strings"
+	"unicode/utf8"
 )
 
 // ---------------------------------------------------------------------------
@@ -444,4 +446,35 @@ func (p *Pat) Clone() *Pat {
 		q.Subs = append(q.Subs, s.Clone())
 	}
 	return &q
+}
+
+// JSON cannot carry strings that are not valid UTF-8 (they come back with
+// U+FFFD in place of the offending bytes); a terminal name may be any bytes
+// (a string literal of the grammar holding ill-formed UTF-8), so such names
+// travel as raw bytes.
+type symJSON struct {
+	Kind  SymKind `json:"k"`
+	Name  string  `json:"n"`
+	Quote int     `json:"q,omitempty"`
+	Raw   []byte  `json:"raw,omitempty"`
+}
+
+func (s Sym) MarshalJSON() ([]byte, error) {
+	j := symJSON{Kind: s.Kind, Name: s.Name, Quote: s.Quote}
+	if !utf8.ValidString(s.Name) {
+		j.Name, j.Raw = "", []byte(s.Name)
+	}
+	return json.Marshal(j)
+}
+
+func (s *Sym) UnmarshalJSON(b []byte) error {
+	var j symJSON
+	if err := json.Unmarshal(b, &j); err != nil {
+		return err
+	}
+	s.Kind, s.Name, s.Quote = j.Kind, j.Name, j.Quote
+	if j.Raw != nil {
+		s.Name = string(j.Raw)
+	}
+	return nil
 }
